@@ -1,6 +1,7 @@
 import Driver.Util
 import Crusta.Spec.Oracle
 import Driver.Enc
+import Driver.Trace
 
 open Crusta Driver
 
@@ -167,7 +168,7 @@ def main : IO Unit := do
     stdout.putStrLn s!"case {c.id} {c.family}"
     let out := match c.family with
       | "store" => runStore c
-      | "solve" => runSolve c
+      | "solve" => runSolve c ++ ["trace"] ++ runTrace c.lines
       | "enc" => runEnc c.lines
       | f => [s!"verdict BAD unknown family {f}"]
     for l in out do stdout.putStrLn l
